@@ -373,7 +373,28 @@ def _bytes(I, args, kw):
     raise Undecided('bytes(x)')
 
 
+def _any(I, args, kw):
+    return Or(*[I.truth_expr(x) for g, x in _concrete_items(I, args[0])])
+
+
+def _all(I, args, kw):
+    return And(*[I.truth_expr(x) for g, x in _concrete_items(I, args[0])])
+
+
+def _sum(I, args, kw):
+    r = args[1] if len(args) > 1 else 0
+    for g, x in _concrete_items(I, args[0]):
+        r = r + (B2I(x) if isinstance(x, (bool, z3.BoolRef)) else x)
+    return r
+
+
+def _zip(I, args, kw):
+    cols = [[x for g, x in _concrete_items(I, a)] for a in args]
+    return I.ctx.alloc(PList([tuple(t) for t in zip(*cols)]))
+
+
 BUILTINS = {
+    'any': _any, 'all': _all, 'sum': _sum, 'zip': _zip,
     'len': _len, 'min': _min, 'max': _max, 'int': _int, 'float': _float, 'abs': _abs, 'bool': _bool, 'str': _str,
     'isinstance': _isinstance, 'callable': _callable, 'ord': _ord, 'range': _range, 'xrange': _range,
     'list': _list, 'tuple': _tuple, 'dict': _dict, 'set': _set, 'sorted': _sorted, 'reversed': _reversed,
